@@ -44,6 +44,7 @@ type Obligation struct {
 }
 
 type quant struct {
+	class  string // loop class; instantiated at witnesses of the same class ("" = all)
 	guard  string // outer guard (no parameter)
 	fn     string // name of a (Int)->Bool definition
 	lo, hi string // optional bounds ("" = unbounded)
@@ -60,6 +61,8 @@ type X struct {
 	obls      []*Obligation
 	quants    []quant
 	witnesses []string
+	witClass  map[string]string
+	curClass  string
 	heapSorts map[string]string
 	touched   map[string]bool // heap keys read or written (read-set computation)
 	written   map[string]bool
@@ -91,7 +94,7 @@ func NewX(prog *Prog, specs *Specs, mode execMode) *X {
 	x := &X{prog: prog, sc: NewScript(), tags: newTagTable(), mode: mode,
 		heapSorts: map[string]string{}, touched: map[string]bool{}, written: map[string]bool{},
 		opaque: map[string]bool{}, usedOpq: map[string]*ssa.Function{}, externs: map[string]bool{},
-		strLits: map[string]string{}, siteCount: map[string]int{}, interior: map[string]int{}, specs: specs}
+		strLits: map[string]string{}, witClass: map[string]string{}, siteCount: map[string]int{}, interior: map[string]int{}, specs: specs}
 	x.st = &State{cond: "true", heap: map[string]string{}, cells: map[*Cell]Val{}}
 	x.prelude()
 	if specs != nil {
@@ -129,9 +132,9 @@ func (x *X) assume(t string) {
 		save := x.sc.paramName
 		ref := x.sc.Define("fact", SBool, t)
 		name := strings.TrimSuffix(strings.TrimPrefix(ref, "("), " "+save+")")
-		x.quants = append(x.quants, quant{guard: "true", fn: name})
+		x.quants = append(x.quants, quant{guard: "true", fn: name, class: x.curClass})
 		x.sc.paramName = ""
-		x.sc.Assert(fmt.Sprintf("(forall ((%s Int)) (%s %s))", save, name, save))
+		x.sc.add(fmt.Sprintf("(assert (forall ((%s Int)) (%s %s))) ;@inst", save, name, save))
 		x.sc.paramName = save
 		return
 	}
@@ -181,6 +184,7 @@ func (x *X) strLit(s string) string {
 	}
 	name := fmt.Sprintf("gs.lit%d", len(x.strLits))
 	x.strLits[s] = name
+	x.sc.Declare(name, nil, SStr)
 	return name
 }
 
@@ -193,10 +197,6 @@ func (x *X) strLitDecls() string {
 	}
 	sort.Strings(lits)
 	var b strings.Builder
-	for _, s := range lits {
-		n := x.strLits[s]
-		fmt.Fprintf(&b, "(declare-fun %s () Real)\n", n)
-	}
 	prev := "gs.empty"
 	for _, s := range lits {
 		n := x.strLits[s]
